@@ -13,8 +13,11 @@ from __future__ import annotations
 import ast
 import re
 
+import copy
+
 from ..prog import AnalysisError, dotted, unparse
 from ..absint import to_poly, Poly
+from ..flow import cond_atoms
 from ..match import pretty
 from . import msgutil as MU
 
@@ -27,40 +30,152 @@ def norm(s):
     return re.sub(r"\s+", "", s)
 
 
-UNITS = {   # leaf key -> (input expression, coefficient)
-    "latitude": ("tpv['lat']", 10000000), "longitude": ("tpv['lon']", 10000000), "altitudeValue": ("tpv['altHAE']", 100),
-    "speedValue": ("tpv['speed']", 100), "headingValue": ("tpv['track']", 10), "value": ("tpv['track']", 10),
+# data elements carrying a measured quantity: path suffix of the position -> (key of the position report, coefficient)
+UNITS = {
+    ("latitude",): ("lat", 10000000), ("longitude",): ("lon", 10000000), ("altitudeValue",): ("altHAE", 100),
+    ("speedValue",): ("speed", 100), ("headingValue",): ("track", 10), ("heading", "value"): ("track", 10),
 }
+_INT_CONVERSIONS = ("int", "round", "trunc", "math.trunc", "floor", "math.floor")
+
+
+def unit_of(path: list):
+    for suffix, u in UNITS.items():
+        if len(path) >= len(suffix) and tuple(path[-len(suffix):]) == suffix:
+            return u
+    return None
+
+
+def _branches(e: ast.AST) -> list:
+    """Value alternatives of a conditional expression."""
+    if isinstance(e, ast.IfExp):
+        return _branches(e.body) + _branches(e.orelse)
+    return [e]
+
+
+def _measured(P, mod, e: ast.AST) -> ast.AST:
+    """Peel integer conversions and clamps by constants: int(x), round(x), min(x, C), max(C, x), ... -> x."""
+    while isinstance(e, ast.Call) and not e.keywords:
+        fn = dotted(e.func) or ""
+        if fn in _INT_CONVERSIONS and len(e.args) == 1:
+            e = e.args[0]
+            continue
+        if fn in ("min", "max") and len(e.args) >= 2:
+            var = [a for a in e.args if P.try_fold(mod, a, default="<nc>") == "<nc>"]
+            if len(var) == 1:
+                e = var[0]
+                continue
+        break
+    return e
+
+
+class _GetAsSubscript(ast.NodeTransformer):
+    """report.get('k') reads the same entry as report['k']"""
+    def visit_Call(self, n):
+        self.generic_visit(n)
+        if isinstance(n.func, ast.Attribute) and n.func.attr == "get" and len(n.args) == 1 and not n.keywords \
+                and isinstance(n.args[0], ast.Constant):
+            return ast.Subscript(value=n.func.value, slice=n.args[0], ctx=ast.Load())
+        return n
 
 
 def units(ctx, M, kind):
-    """The stored expression is int(<input> * <unit coefficient>)."""
+    """Every computed value stored into a unit-carrying data element is <the matching entry of the position report> x
+    <unit coefficient> (integer conversion and clamping by constants aside); constants are the element's code points."""
     P = ctx.prog
     n = 0
     for s in M.stores(kind):
-        leaf = s.path[-1] if s.path else None
-        if leaf not in UNITS or not isinstance(leaf, str):
+        u = unit_of([k for k in s.path])
+        if u is None:
             continue
+        key, coef = u
+        leaf = s.path[-1]
         fl = ctx.flows.get(s.fi)
         st = fl.before[id(s.stmt)]
-        x = fl.expand(s.value, st)
-        if P.try_fold(s.fi.module, x, default="<nc>") != "<nc>":
-            continue          # out-of-range / unavailable code point
-        inp, coef = UNITS[leaf]
-        t = norm(pretty(unparse(x)))
-        if norm(inp) not in t:
-            continue
-        n += 1
-        inner = x.args[0] if isinstance(x, ast.Call) and dotted(x.func) in ("int", "round") and x.args else x
-        got = to_poly(P, s.fi.module, inner, lambda q: pretty(q))
-        want = to_poly(P, s.fi.module, ast.parse(f"{inp} * {coef}", mode="eval").body, lambda q: pretty(q))
-        ctx.ob("C11.unit", s.fi.short(), f"{kind}.{leaf}", repr(got) == repr(want),
-               f"{kind} {leaf} := `{pretty(unparse(x))[:60]}`; the data element's unit needs {inp} x {coef}",
-               f"{s.fi.module.rel}:{s.stmt.lineno}")
+        params = [p for p in s.fi.params if p not in ("self", "cls")]
+        for alt in fl.alternatives(s.value, st):
+            for x in _branches(alt):
+                if P.try_fold(s.fi.module, x, default="<nc>") != "<nc>":
+                    continue          # out-of-range / unavailable code point
+                n += 1
+                inner = _GetAsSubscript().visit(_measured(P, s.fi.module, x))
+                got = to_poly(P, s.fi.module, inner)
+                wants = [to_poly(P, s.fi.module, ast.parse(f"{p}[{key!r}] * {coef}", mode="eval").body) for p in params]
+                ok = any(got == w for w in wants)
+                ctx.ob("C11.unit", s.fi.short(), f"{kind}.{leaf}", ok,
+                       f"{kind} {leaf} := `{pretty(unparse(x))[:60]}`; the data element's unit needs <position report>[{key!r}] x {coef}",
+                       f"{s.fi.module.rel}:{s.stmt.lineno}")
     return n
 
 
 GDT = "facilities.ca_basic_service.cam_transmission_management.GenerationDeltaTime"
+
+
+_TRUNCS = ("trunc", "math.trunc", "int", "math.floor", "floor")
+_CYCLES = "__whole_cycles__"
+
+
+class _Paths:
+    """Path-wise symbolic execution of a small loop-free function body (assignments to locals, if, return): every path
+    is (conditions [(test with locals substituted, polarity)], returned expression with locals substituted)."""
+
+    def __init__(self, fi):
+        self.fi = fi
+        self.paths = []
+        self.problem = None
+        self._run(fi.node.body, {}, [])
+
+    def _subst(self, e, env):
+        class S(ast.NodeTransformer):
+            def visit_Name(s2, n):
+                return copy.deepcopy(env[n.id]) if isinstance(n.ctx, ast.Load) and n.id in env else n
+        return S().visit(copy.deepcopy(e))
+
+    def _run(self, stmts, env, conds):
+        """-> True when the block can fall through (env updated in place)"""
+        for i, s in enumerate(stmts):
+            if isinstance(s, ast.Expr) and isinstance(s.value, ast.Constant):
+                continue
+            if isinstance(s, ast.Pass):
+                continue
+            if isinstance(s, ast.Assign) and len(s.targets) == 1 and isinstance(s.targets[0], ast.Name):
+                env[s.targets[0].id] = self._subst(s.value, env)
+            elif isinstance(s, ast.AnnAssign) and isinstance(s.target, ast.Name) and s.value is not None:
+                env[s.target.id] = self._subst(s.value, env)
+            elif isinstance(s, ast.AugAssign) and isinstance(s.target, ast.Name):
+                env[s.target.id] = self._subst(ast.BinOp(left=ast.Name(id=s.target.id, ctx=ast.Load()), op=s.op, right=s.value), env)
+            elif isinstance(s, ast.Return):
+                self.paths.append((list(conds), self._subst(s.value, env) if s.value is not None else ast.Constant(None)))
+                return False
+            elif isinstance(s, ast.Raise):
+                return False
+            elif isinstance(s, ast.If):
+                test = self._subst(s.test, env)
+                rest = stmts[i + 1:]
+                for pol, blk in ((True, s.body), (False, s.orelse)):
+                    e2 = dict(env)
+                    c2 = conds + [(test, pol)]
+                    if self._run(blk, e2, c2):
+                        self._run(rest, e2, c2) and self.paths.append((c2, ast.Constant(None)))
+                return False
+            else:
+                self.problem = f"statement `{unparse(s)[:40]}` (line {s.lineno}) is outside the forms understood"
+                return False
+        return True
+
+
+def _sign_of(P, mod, conds, D):
+    """What the path conditions say about the sign of the quantity with polynomial D: 'neg' (D < 0), 'nonneg' (D >= 0) or None."""
+    out = None
+    for test, pol in conds:
+        for node, p in cond_atoms(test, pol):
+            if not p or not isinstance(node, ast.Compare) or len(node.ops) != 1 or not isinstance(node.ops[0], (ast.Gt, ast.GtE)):
+                continue
+            diff = to_poly(P, mod, node.left) - to_poly(P, mod, node.comparators[0])
+            if isinstance(node.ops[0], ast.Gt) and diff == -D:
+                out = "neg"
+            elif diff == D:
+                out = "nonneg"
+    return out
 
 
 def gdt_rules(ctx):
@@ -72,80 +187,101 @@ def gdt_rules(ctx):
         raise AnalysisError("C11: GenerationDeltaTime.as_timestamp_in_certain_point vanished")
     fl = ctx.flows.get(fi)
     R = fi.params[1]
-    ren = lambda q: pretty(q)
-    # n := trunc((R - EPOCH + ELAPSED) / 65536)
-    defs = {}
-    for n in ast.walk(fi.node):
-        if isinstance(n, ast.Assign) and isinstance(n.targets[0], ast.Name):
-            defs[n.targets[0].id] = n.value
+    mod = fi.module
     loc = fi.loc
-    ncy = defs.get("number_of_cycles")
-    ok = isinstance(ncy, ast.Call) and dotted(ncy.func) in ("trunc", "math.trunc", "int", "math.floor", "floor") and len(ncy.args) == 1
-    if ok:
-        got = to_poly(P, fi.module, ncy.args[0], ren)
-        want = to_poly(P, fi.module, ast.parse(f"({R} - ITS_EPOCH_MS + ELAPSED_MILLISECONDS) / 65536", mode="eval").body, ren)
-        ok = repr(got) == repr(want)
-    ctx.ob("C11.gdt", fi.short(), "cycles", ok, "number of whole 65536 ms cycles = trunc((reception time in ITS ms) / 65536)", loc)
-    want_c = to_poly(P, fi.module, ast.parse("self.msec + 65536 * number_of_cycles + ITS_EPOCH_MS - ELAPSED_MILLISECONDS", mode="eval").body, ren)
+    px = lambda src: to_poly(P, mod, ast.parse(src, mode="eval").body)
+    its_ms = px(f"{R} - ITS_EPOCH_MS + ELAPSED_MILLISECONDS")          # reception time in ITS milliseconds
+    its_cycles = px(f"({R} - ITS_EPOCH_MS + ELAPSED_MILLISECONDS) / 65536")
+    seen_cycles, bad_cycles = [], []
+
+    class Cycles(ast.NodeTransformer):
+        """replace  trunc(<ITS ms> / 65536)  /  <ITS ms> // 65536  by one symbol"""
+        def visit_Call(s2, n):
+            if dotted(n.func) in _TRUNCS and len(n.args) == 1 and not n.keywords:
+                inner = n.args[0]
+                if to_poly(P, mod, inner) == its_cycles:
+                    seen_cycles.append(n)
+                    return ast.Name(id=_CYCLES, ctx=ast.Load())
+                if isinstance(inner, ast.BinOp) and isinstance(inner.op, (ast.Div, ast.FloorDiv)):
+                    bad_cycles.append(n)
+            return s2.generic_visit(n)
+
+        def visit_BinOp(s2, n):
+            if isinstance(n.op, ast.FloorDiv) and P.try_fold(mod, n.right) == 65536 and to_poly(P, mod, n.left) == its_ms:
+                seen_cycles.append(n)
+                return ast.Name(id=_CYCLES, ctx=ast.Load())
+            return s2.generic_visit(n)
+
+    sym = lambda e: to_poly(P, mod, Cycles().visit(copy.deepcopy(e)))
+    want_c = px(f"self.msec + 65536 * {_CYCLES} + ITS_EPOCH_MS - ELAPSED_MILLISECONDS")
     rets = [(k, s_, st) for k, s_, st in fl.exits if k == "return" and s_.value is not None]
     if len(rets) != 2:
         raise AnalysisError(f"C11: as_timestamp_in_certain_point has {len(rets)} returns (2 expected: same cycle / previous cycle)")
     seen_same, seen_prev = False, False
+    results = []
     for k, s_, st in rets:
-        x = fl.expand(s_.value, st)
-        # keep number_of_cycles symbolic
-        x2 = s_.value
-        if isinstance(x2, ast.Name) and x2.id in defs:
-            x2 = defs[x2.id]
-        got = to_poly(P, fi.module, x2, ren)
-        guards = sorted(("" if f.pol else "not ") + norm(pretty(f.key)) for f in st.facts if f.kind == "cond")
-        if repr(got) == repr(want_c):
+        got = sym(fl.expand(s_.value, st))
+        diffs = []       # (strict?, polynomial of left - right) of every order fact in force
+        for f in st.facts:
+            if f.kind == "cond" and f.pol and isinstance(f.xnode, ast.Compare) and len(f.xnode.ops) == 1 \
+                    and isinstance(f.xnode.ops[0], (ast.Gt, ast.GtE)):
+                diffs.append((isinstance(f.xnode.ops[0], ast.Gt), sym(f.xnode.left) - sym(f.xnode.comparators[0])))
+        results.append((s_, got, diffs, sorted(pretty(f.xkey)[:60] for f in st.facts if f.kind == "cond")))
+    ok_cycles = bool(seen_cycles) and not bad_cycles
+    ctx.ob("C11.gdt", fi.short(), "cycles", ok_cycles, "number of whole 65536 ms cycles = trunc((reception time in ITS ms) / 65536)", loc)
+    for s_, got, diffs, shown in results:
+        rloc = f"{fi.module.rel}:{s_.lineno}"
+        if got == want_c:
             seen_same = True
-            okg = f"{R}>=transformed_timestamp" in guards
+            okg = any(not strict and d == px(R) - want_c for strict, d in diffs)
             ctx.ob("C11.gdt", fi.short(), "same-cycle", okg,
-                   f"candidate in the reception cycle is returned exactly when it is not later than the reception time (guards {guards})", f"{fi.module.rel}:{s_.lineno}")
-        elif repr(got) == repr(want_c - Poly.const(65536)):
+                   f"candidate in the reception cycle is returned exactly when it is not later than the reception time (guards {shown})", rloc)
+        elif got == want_c - Poly.const(65536):
             seen_prev = True
-            okg = f"transformed_timestamp>{R}" in guards
+            okg = any(strict and d == want_c - px(R) for strict, d in diffs)
             ctx.ob("C11.gdt", fi.short(), "previous-cycle", okg,
-                   f"otherwise the candidate one full cycle (65536 ms) earlier is returned (guards {guards})", f"{fi.module.rel}:{s_.lineno}")
+                   f"otherwise the candidate one full cycle (65536 ms) earlier is returned (guards {shown})", rloc)
         else:
             ctx.ob("C11.gdt", fi.short(), f"return:{norm(unparse(s_.value))[:30]}", False,
                    f"returned value `{got!r}` is neither msec + 65536*n + EPOCH - ELAPSED nor that minus 65536: the reconstructed time is not congruent "
-                   "to generationDeltaTime modulo 65536 / not within the last 65536 ms", f"{fi.module.rel}:{s_.lineno}")
+                   "to generationDeltaTime modulo 65536 / not within the last 65536 ms", rloc)
     ctx.ob("C11.gdt", fi.short(), "both-cycles", seen_same and seen_prev, "both the same-cycle and the previous-cycle case are returned", loc)
-    # wrap-aware subtraction: (a - b) mod 65536, either with `%` or as `d = a - b; if d < 0: d += 65536`
+    # wrap-aware subtraction: on every path for two GenerationDeltaTime operands the result is (a - b) mod 65536 -
+    # written with `%`, or as a - b where a - b >= 0 is known and a - b + 65536 where a - b < 0 is known
     sub = g.methods.get("__sub__")
     if sub is None:
         raise AnalysisError("C11: GenerationDeltaTime.__sub__ vanished")
     other = sub.params[1]
-    sfl = ctx.flows.get(sub)
-    want_d = to_poly(P, sub.module, ast.parse(f"self.msec - {other}.msec", mode="eval").body, ren)
-    okw, how = False, "unrecognised form"
-    srets = [(s_, st) for k, s_, st in sfl.exits if k == "return" and s_.value is not None and dotted(s_.value) != "NotImplemented"]
-    mods = [n for n in ast.walk(sub.node) if isinstance(n, ast.BinOp) and isinstance(n.op, ast.Mod)]
-    if mods:
-        okw = all(P.try_fold(sub.module, m.right) == 65536 and repr(to_poly(P, sub.module, m.left, ren)) == repr(want_d) for m in mods) and len(srets) == 1
-        how = "(self.msec - other.msec) % 65536"
-    else:
-        first = [n for n in sub.node.body[-2:] + list(ast.walk(sub.node)) if isinstance(n, ast.Assign) and isinstance(n.targets[0], ast.Name)]
-        var = first[0].targets[0].id if first else None
-        base_ok = bool(first) and repr(to_poly(P, sub.module, first[0].value, ren)) == repr(want_d)
-        fix = [n for n in ast.walk(sub.node) if isinstance(n, ast.If) and isinstance(n.test, ast.Compare)]
-        fix_ok = False
-        for n in fix:
-            t = norm(unparse(n.test))
-            if t in (f"{var}<0", f"0>{var}") and len(n.body) == 1 and not n.orelse:
-                b0 = n.body[0]
-                if isinstance(b0, ast.Assign) and dotted(b0.targets[0]) == var and repr(to_poly(P, sub.module, b0.value, ren)) == repr(to_poly(P, sub.module, ast.parse(f"{var} + 65536", mode="eval").body, ren)):
-                    fix_ok = True
-                if isinstance(b0, ast.AugAssign) and dotted(b0.target) == var and isinstance(b0.op, ast.Add) and P.try_fold(sub.module, b0.value) == 65536:
-                    fix_ok = True
-        ret_ok = len(srets) == 1 and norm(unparse(srets[0][0].value)) in (var, f"int({var})")
-        okw = base_ok and fix_ok and ret_ok
-        how = f"{var} = self.msec - other.msec; if {var} < 0: {var} += 65536"
+    D = to_poly(P, sub.module, ast.parse(f"self.msec - {other}.msec", mode="eval").body)
+    pp = _Paths(sub)
+    okw, how, n_val = pp.problem is None, pp.problem or "", 0
+    for conds, val in pp.paths:
+        if dotted(val) == "NotImplemented" or (isinstance(val, ast.Constant) and val.value is None):
+            # only for operands of another type
+            foreign = any(not pol and isinstance(t, ast.Call) and dotted(t.func) == "isinstance" for t, pol in conds)
+            if not foreign:
+                okw, how = False, "a path for two GenerationDeltaTime operands returns no number"
+            continue
+        n_val += 1
+        v = val
+        while isinstance(v, ast.Call) and dotted(v.func) in ("int", "round") and len(v.args) == 1:
+            v = v.args[0]
+        if isinstance(v, ast.BinOp) and isinstance(v.op, ast.Mod) and P.try_fold(sub.module, v.right) == 65536 \
+                and to_poly(P, sub.module, v.left) - D in (Poly.const(0), Poly.const(65536)):
+            how = how or "(a - b) % 65536"
+            continue
+        got = to_poly(P, sub.module, v)
+        sign = _sign_of(P, sub.module, conds, D)
+        if got == D + Poly.const(65536) and sign == "neg":
+            how = how or "a - b, plus 65536 when negative"
+            continue
+        if got == D and sign == "nonneg":
+            continue
+        okw = False
+        how = f"on the path {[('' if pol else 'not ') + unparse(t)[:40] for t, pol in conds]} the result is `{unparse(v)[:50]}`"
+    okw = okw and n_val > 0
     ctx.ob("C11.gdt", g.qual[10:] + ".__sub__", "wrap-aware", okw,
-           f"GenerationDeltaTime difference is (a - b) mod 65536 [{how}]" if okw else "GenerationDeltaTime.__sub__ is not (a - b) mod 65536", sub.loc)
+           f"GenerationDeltaTime difference is (a - b) mod 65536 [{how}]" if okw else f"GenerationDeltaTime.__sub__ is not (a - b) mod 65536: {how}", sub.loc)
     # sender side: generationDeltaTime objects are ordered only through the wrap-aware difference
     n_sub = 0
     for f2 in P.iter_funcs():
